@@ -151,7 +151,10 @@ INLINE = [
     ("www", "www.example.com/a_b?c=d"), ("email", "<joe.q@example.com>"), ("mailto", "<mailto:joe@example.com>"), ("link_escparen", "[t](http://e.com/a\\)b \"say \\\"hi\\\"\")"),
     # constructs that span two source lines, the first ending in two spaces / a backslash / one space: not a hard break inside a tag, comment or title
     ("html_ml_2sp", "<span  \nclass=\"a\">"), ("hcomment_ml_2sp", "<!-- c  \nd -->"), ("link_title_ml_2sp", "[t](http://e.com \"ti  \ntle\")"),
-    ("image_title_ml_2sp", "![i](x.png \"ti  \ntle\")"), ("html_ml_bs", "<span\\\nclass=\"a\">"), ("html_ml_1sp", "<span \nclass=\"a\">"), ("code_ml_2sp", "`co  \nde`"),
+    ("image_title_ml_2sp", "![i](x.png \"ti  \ntle\")"), ("html_ml_bs", "<span title=\"C:\\tmp\\\nfiles\">"), ("hcomment_ml_bs", "<!-- path C:\\build\\\nout -->"), ("html_ml_1sp", "<span \nclass=\"a\">"), ("code_ml_2sp", "`co  \nde`"),
+    # titles whose text itself begins and ends like a delimited title
+    ("image_title_paren", "![fig](img.png \"(draft)\")"), ("image_title_sq", "![fig](img.png \"'quoted'\")"), ("image_title_dq", "![fig](img.png '\"Quoted\"')"),
+    ("link_title_paren", "[t](http://e.com \"(a) and (b)\")"), ("link_title_sq", "[t](http://e.com \"'quoted'\")"),
     ("link_text_ml_2sp", "[li  \nnk](http://e.com)"), ("tag_ml_2sp", "{% tag a=\"1\"  \nb='2' %}"),
 ]
 CONT = {"": "", "- ": "  ", "> ": "> "}
